@@ -1445,6 +1445,16 @@ pub fn gen_corpus_with(seed: u64, n_fam: usize, q_per_fam: usize, adv: bool) -> 
             qs.push(format!("${}[0]", chain(24)));
             qs.push(format!("${}.a", chain(24)));
             qs.push("$..s".to_string());
+            // deeply nested *texts*: parentheses 20, 70 and 130 deep, nested filters and bracketed
+            // sub-queries 20 and 66 deep (what a query builder that parenthesises every step emits)
+            for n in [20usize, 70, 130] {
+                qs.push(format!("$[?{}@.s >= 0{}]", "(".repeat(n), ")".repeat(n)));
+                qs.push(format!("$.a[?{}@.s == 1 && @.b{}]", "(".repeat(n), ")".repeat(n)));
+            }
+            for n in [20usize, 66] {
+                qs.push(format!("$[?@{}{}]", "[?@".repeat(n), "]".repeat(n)));
+                qs.push(format!("$[?{}@.s{} == 0]", "value(".repeat(n.min(40)), ")".repeat(n.min(40))));
+            }
             for q in qs {
                 queries.push(q);
                 fq.push(queries.len() - 1);
@@ -1996,7 +2006,20 @@ pub fn gen_plan_opt(c: &Corpus, run_seed: u64, allow_stress: bool) -> (Plan, Pla
             Op::E { s, d } => (qslots_ref[*s], *d),
             _ => return false,
         };
-        let q_ok = if q < n_normal_q { c.queries[query_map[q]].len() <= 160 } else { true };
+        // short and flat: a deeply parenthesised text of 150 bytes recurses 70 levels deep in the parser
+        let flat = |t: &str| -> bool {
+            let (mut d, mut m) = (0i32, 0i32);
+            for ch in t.chars() {
+                if ch == '(' || ch == '[' {
+                    d += 1;
+                    m = m.max(d);
+                } else if ch == ')' || ch == ']' {
+                    d -= 1;
+                }
+            }
+            m <= 6
+        };
+        let q_ok = if q < n_normal_q { c.queries[query_map[q]].len() <= 160 && flat(&c.queries[query_map[q]]) } else { true };
         q_ok && slots[d].iter().all(|ci| { let t = &c.contents[content_map[*ci]]; !t.starts_with('#') && t.len() <= 1200 })
     };
     if let Some(kib) = std::env::var("VERIF_C12_LOWSTACK").ok().and_then(|v| v.parse::<usize>().ok()) {
